@@ -262,3 +262,23 @@ package raft
 //    replication.status fields LeaderWF / MatchOf speak about, so `status.matchIndex = u.val` would not reach
 //    majorityMatchIndex's view of the match indexes (C06/C02 would hold vacuously).
 // runBatch is a pure select loop over three channels (goroutine boundary): nothing the engine executes.
+
+// ---------------------------------------------------------------------------
+// runBatch (C15, C07): the goroutine that links the FSM tasks it receives into a chain and hands the
+// chain to the state loop. What is sent on a channel is not modelled by the engine (T-go); the ghost
+// counters gtin (tasks taken from fsmTaskCh) and gtout (tasks handed over on newEntryCh) are updated
+// at the receive and at the two send sites, so "no accepted task is dropped, also at shutdown" becomes
+// a postcondition. Assumed channel invariant: a submitted task is not nil.
+//@ func (*newEntry).newEntry
+//@   ensures result0 == ne
+//@ ghost var gtin int
+//@ ghost var gtout int
+//@ func (*Raft).runBatch
+//@   requires gtin == gtout
+//@   modifies gtin, gtout, newEntry.next
+//@   recvassume 2: ptrnonnil(recv)
+//@   ghostcode after call newEntry 1: gtin := gtin + 1
+//@   ghostcode at send 1: gtout := gtin
+//@   ghostcode at send 2: gtout := gtin
+//@   ensures [C15+C07.no-accepted-task-dropped] gtout == gtin
+//@   loop 1 invariant gtout <= gtin && ((neHead == nil) == (gtout == gtin)) && ((neHead == nil) == (neTail == nil))
